@@ -236,7 +236,10 @@ func runC20(c *Ctx) {
 	}
 
 	// ---- C20.started and C20.scale
-	type getter struct{ typ, name, imp string; scaled bool }
+	type getter struct {
+		typ, name, imp string
+		scaled         bool
+	}
 	getters := []getter{
 		{"kbps", "Kbps10s", "Xps10s", true}, {"kbps", "Kbps30s", "Xps30s", true}, {"kbps", "Kbps300s", "Xps300s", true}, {"kbps", "Average", "Average", true},
 		{"krps", "Rps10s", "Xps10s", false}, {"krps", "Rps30s", "Xps30s", false}, {"krps", "Rps300s", "Xps300s", false}, {"krps", "Average", "Average", false},
